@@ -74,3 +74,14 @@ def run(ck, prog):
                         "LogisticRegression::fit: classes = unique(y)", "LogisticRegression")
     ck.floor("E2a-label-decode", 2)
     ck.floor("E2a-label-table", 1)
+
+
+_run_pre_builders = run
+
+
+def run(ck, prog):
+    _run_pre_builders(ck, prog)
+    # every setting of the quantifier is reachable through the public builder chain: setters must not clobber other fields
+    from sa.builders import check_builders
+    check_builders(ck, prog, r"^linear::logistic_regression::LogisticRegressionParameters$")
+    ck.floor("E2-builder", 2)
